@@ -10,7 +10,7 @@ from harness import zones as Z
 ID = "C06"
 BACKENDS = ("py", "rs")
 GEN_MODULES = ("Tables", "Helpers")
-MIN_THEOREMS = 12
+MIN_THEOREMS = 19
 US = D.US
 DAY = 86400 * US
 YMAX = Z.YMAX_QUICK
